@@ -24,5 +24,33 @@ OneExchange ==
   /\ Len(st) >= 1 => st[1].cls = (IF PAIRING = "AB" THEN "A" ELSE "S")
   /\ Len(st) >= 2 => (st[2].cls = (IF PAIRING = "AB" THEN "B" ELSE "S") /\ st[2].pw = st[1].pw)
   /\ \A i \in 3..Len(st) : st[i].restored
-(* keep the network honest: finish() only with the peer's message (by side)  *)
+
+(* ---------------------------------------------------------------------- *)
+(* The same exchange on ONE fixed schedule (new, new, start, start,        *)
+(* [serialize, restore]*, finish, finish), for state spaces where every    *)
+(* interleaving would be too large: all (w, x, y) of bigger groups.  The   *)
+(* steps are the actions of Spake2.                                        *)
+(* ---------------------------------------------------------------------- *)
+CONSTANT NRESTORE        \* how many times end 1 is persisted and revived before finish()
+CA == IF PAIRING = "AB" THEN "A" ELSE "S"
+CB == IF PAIRING = "AB" THEN "B" ELSE "S"
+Cur == Len(st)           \* the newest copy of end 1 (instance 1 or its last restored copy)
+SeqNext ==
+  \/ /\ Len(st) = 0
+     /\ \E pw \in MC_Passwords : New(CA, DefaultParams, pw, <<<<97>>, <<98>>>>)
+  \/ /\ Len(st) = 1
+     /\ New(CB, DefaultParams, st[1].pw, <<<<97>>, <<98>>>>)
+  \/ /\ Len(st) = 2 /\ ~st[1].started
+     /\ \E x \in AllScalars(ToyGroup) : Start(1, x)
+  \/ /\ Len(st) = 2 /\ st[1].started /\ ~st[2].started
+     /\ \E y \in AllScalars(ToyGroup) : Start(2, y)
+  \/ /\ Len(st) >= 2 /\ st[2].started /\ nrest < NRESTORE /\ Cardinality(disk) = nrest
+     /\ Serialize(IF Cur = 2 THEN 1 ELSE Cur)
+  \/ /\ Len(st) >= 2 /\ st[2].started /\ nrest < NRESTORE /\ Cardinality(disk) = nrest + 1
+     /\ \E d \in disk : d.by = (IF Cur = 2 THEN 1 ELSE Cur) /\ Restore(CA, DefaultParams, d)
+  \/ /\ Len(st) >= 2 /\ st[2].started /\ nrest = NRESTORE
+     /\ LET a == IF Cur = 2 THEN 1 ELSE Cur IN
+        \/ aux[a].nfin = 0 /\ Finish(a, SentBy(2))
+        \/ aux[a].nfin = 1 /\ aux[2].nfin = 0 /\ Finish(2, SentBy(a))
+SeqSpec == Init /\ [][SeqNext]_vars
 =============================================================================
